@@ -26,7 +26,8 @@ theorem C11_mirrored_code_shape :
 
 /-- **A commit that returns `Ok` is complete.** In every faulty run, if a `commit` of a writer
 that has reported no error since it was created / rolled back returns `Ok`, then none of the
-storage phases its result depends on failed (worker flush, purge, `save_metas`, and — when the
+storage phases its result depends on failed (worker flush of the documents still in the worker's
+open segment, purge, `save_metas`, and — when the
 code has it — the directory sync after the rename), `meta.json` now denotes exactly the previous content plus every document whose `add_document` returned
 `Ok` since the last commit, and every segment it references has its files. -/
 theorem C11_commit_ok_complete (sy : Bool) (fx : Fixes) (cap : Nat) (F : Nat → Plan) (cs : List Call) (f : Plan)
@@ -34,7 +35,7 @@ theorem C11_commit_ok_complete (sy : Bool) (fx : Fixes) (cap : Nat) (F : Nat →
     let s := final sy fx cap F cs
     ∀ w, s.writer = some w → w.clean = true → (call sy fx cap f s .commit).2 = .ok →
       f .purge = false ∧ f .saveMeta = false ∧ (sy && f .saveSync2) = false ∧
-      (w.acked ≠ [] → f .worker = false) ∧
+      (w.queue ≠ [] → f .worker = false) ∧
       content (call sy fx cap f s .commit).1.metaSegs = content s.metaSegs ++ w.acked ∧
       segsHaveFiles (call sy fx cap f s .commit).1.metaSegs (call sy fx cap f s .commit).1.files := by
   intro s w hw hc hok
@@ -155,7 +156,8 @@ theorem C11_last_commit_intact (sy : Bool) (fx : Fixes) (cap : Nat) (F : Nat →
       split <;> try rfl
       split
       · split <;> rfl
-      · split <;> rfl
+      · split <;> try rfl
+        split <;> rfl
     | rollback =>
       exfalso; apply hne
       simp only [call]
@@ -261,7 +263,7 @@ theorem C11_error_reported (sy : Bool) (fx : Fixes) (cap : Nat) (F : Nat → Pla
         · exfalso; apply hcond
           cases hq' : w.queue with
           | nil => exact absurd hq' hq
-          | cons a as => simp [hfw]
+          | cons a as => simp [hfw, inFlight, hq']
         · unfold updaterCommit; split <;> simp [hp]
         · unfold updaterCommit; split <;> try rfl
           split <;> simp [hsv]
@@ -335,8 +337,9 @@ theorem C11_recoverable (sy : Bool) (fx : Fixes) (cap : Nat) (F : Nat → Plan) 
   · intro hst
     have hdrop := drop_noFault sy fx cap s hst
     simp only [run_cons, hdrop]
-    simp [run, call, noFault, freshWriter, updaterCommit, flushS, flushW, published, commitRegs,
-      gcRun_meta, content, newFiles]
+    cases hsf : segFull fx [d] <;>
+      simp [run, call, noFault, freshWriter, updaterCommit, flushS, flushW, published, commitRegs,
+        gcRun_meta, content, newFiles, hsf]
 
 example : stale (final false noFix 4 (fun i p => i == 1 && p == .worker) [.newWriter, .add 1, .commit]) = false := by decide
 
@@ -388,7 +391,8 @@ theorem C11_no_wait_cycle_partial (sy : Bool) (fx : Fixes) (cap : Nat) (F : Nat 
               have := (hK hc).2.2.1
               simp [hwk'] at this
           · cases hh
-        · split at hh <;> cases hh
+        · split at hh <;> try cases hh
+          split at hh <;> cases hh
   | newWriter =>
     simp only [call] at hh
     cases hs : s.writer <;> simp only [hs] at hh
@@ -524,6 +528,16 @@ example : (run true noFix 4 (fun i p => i == 2 && p == .saveSync2) 0 init [.newW
     ∧ content (final true noFix 4 (fun i p => i == 2 && p == .saveSync2) [.newWriter, .add 1, .commit, .rollback, .add 2, .commit]).metaSegs = [1, 2]
     ∧ content (final false noFix 4 (fun i p => i == 2 && p == .saveSync2) [.newWriter, .add 1, .commit]).metaSegs = [1] := by decide
 
+/-- several segments per transaction (the worker closes a segment every `cutDocs` documents):
+when a later segment of the transaction fails, the earlier ones stay registered; the commit
+fails, and — without rollback — the next commit publishes that part of the failed transaction -/
+example : (run false ⟨false, false, 2⟩ 9 (fun i p => i == 3 && p == .worker) 0 init
+      [.newWriter, .add 0, .add 1, .add 2, .commit, .commit, .merge]).2 = [.ok, .ok, .ok, .ok, .err, .ok, .ok]
+    ∧ content (final false ⟨false, false, 2⟩ 9 (fun i p => i == 3 && p == .worker)
+      [.newWriter, .add 0, .add 1, .add 2, .commit, .commit, .merge]).metaSegs = [0, 1]
+    ∧ (final false ⟨false, false, 2⟩ 9 (fun _ => noFault) [.newWriter, .add 0, .add 1, .add 2, .add 3, .add 4, .commit]).metaSegs
+        = [⟨0, [0, 1]⟩, ⟨1, [2, 3]⟩, ⟨2, [4]⟩] := by decide
+
 /-! ### the full statements, for a code with the two small repairs (`Fixes`, extracted) -/
 
 /-- **No call ever blocks** — the full form of `C11_no_wait_cycle_partial`. For a code whose
@@ -547,9 +561,9 @@ theorem C11_no_wait_cycle_of_extracted_shape (hshape : Gen.PREPARE_COMMIT_RESTAR
     (call sy codeFixes cap f (final sy codeFixes cap F cs) c).2 ≠ .hang :=
   C11_no_wait_cycle sy codeFixes (by simp [codeFixes, hshape]) cap F cs f c
 
-example : (run false ⟨true, false⟩ 2 (fun i p => i == 1 && p == .worker) 0 init
+example : (run false ⟨true, false, 0⟩ 2 (fun i p => i == 1 && p == .worker) 0 init
       [.newWriter, .add 1, .commit, .add 2, .add 3, .add 4, .commit]).2 = [.ok, .ok, .err, .ok, .ok, .ok, .ok]
-    ∧ content (final false ⟨true, false⟩ 2 (fun i p => i == 1 && p == .worker)
+    ∧ content (final false ⟨true, false, 0⟩ 2 (fun i p => i == 1 && p == .worker)
       [.newWriter, .add 1, .commit, .add 2, .add 3, .add 4, .commit]).metaSegs = [2, 3, 4] := by decide
 
 /-- **No call ever panics, and a failed rollback can be retried.** For a code whose `rollback`
@@ -581,7 +595,7 @@ theorem C11_no_panic_rollback_retry (sy : Bool) (fx : Fixes) (hfx : fx.rollbackK
     have hg := hguard w hw
     cases hf : f .ctorRead <;> simp [call, hw, hg, hf, hfx, noFault, markErr, freshWriter]
 
-example : (run false ⟨false, true⟩ 4 (fun i p => i == 2 && p == .ctorRead) 0 init
+example : (run false ⟨false, true, 0⟩ 4 (fun i p => i == 2 && p == .ctorRead) 0 init
     [.newWriter, .add 1, .rollback, .rollback, .newWriter, .add 2, .commit]).2 = [.ok, .ok, .err, .ok, .err, .ok, .ok] := by decide
 
 end TantivyModel.C11
